@@ -13,6 +13,7 @@ import (
 	"runtime"
 	"sync"
 	"sync/atomic"
+	"time"
 
 	"github.com/modelcontextprotocol/go-sdk/internal/verifharness/vh"
 )
@@ -142,6 +143,10 @@ type InProc struct {
 	// other client goroutines blocked on that mutex (not a durable block), which
 	// stops the bubble's clock for good.
 	AsyncDelete bool
+	// BodyLatency, if set, returns how long the response body of this request is in transit: the headers arrive
+	// at once, the first body bytes only that much (virtual) time later — a slow network seen from the client.
+	// A request context that ends meanwhile aborts the read with that context's error, as net/http does.
+	BodyLatency func(req *http.Request, reqBody []byte) time.Duration
 	// WrapBody, if set, wraps the response body handed to the client (cut injection).
 	WrapBody func(req *http.Request, n int64, resp *http.Response, body io.ReadCloser) io.ReadCloser
 
@@ -191,15 +196,28 @@ func (w *pipeRW) Write(b []byte) (int, error) {
 func (w *pipeRW) Flush() { w.WriteHeader(http.StatusOK) }
 
 type respBody struct {
-	pipe   *bufPipe
-	cancel context.CancelFunc
-	once   sync.Once
+	pipe    *bufPipe
+	cancel  context.CancelFunc
+	once    sync.Once
+	latency time.Duration
+	waited  atomic.Bool
 }
 
-func (b *respBody) Read(p []byte) (int, error) { return b.pipe.Read(p) }
-func (b *respBody) Close() error {
+func (b *respBody) Read(p []byte) (int, error) {
+	if b.latency > 0 && b.waited.CompareAndSwap(false, true) {
+		t := time.NewTimer(b.latency)
+		select {
+		case <-t.C:
+		case <-b.pipe.closed:
+			t.Stop()
+		}
+	}
+	return b.pipe.Read(p)
+}
+func (b *respBody) Close() error { return b.abort(errors.New("inproc: client closed response body")) }
+func (b *respBody) abort(err error) error {
 	b.once.Do(func() {
-		b.pipe.CloseRead(errors.New("inproc: client closed response body"))
+		b.pipe.CloseRead(err)
 		b.cancel() // the server sees the client going away
 	})
 	return nil
@@ -289,14 +307,19 @@ func (t *InProc) RoundTrip(req *http.Request) (*http.Response, error) {
 		w.pipe.CloseRead(req.Context().Err())
 		return nil, req.Context().Err()
 	}
-	var rb io.ReadCloser = &respBody{pipe: w.pipe, cancel: cancel}
+	rbody := &respBody{pipe: w.pipe, cancel: cancel}
+	if t.BodyLatency != nil {
+		rbody.latency = t.BodyLatency(req, body)
+	}
+	var rb io.ReadCloser = rbody
 	resp := &http.Response{
 		Status: fmt.Sprintf("%d %s", w.status, http.StatusText(w.status)), StatusCode: w.status,
 		Proto: "HTTP/1.1", ProtoMajor: 1, ProtoMinor: 1,
 		Header: w.sent, Body: rb, ContentLength: -1, Request: req,
 	}
 	// cancelling the client's request context tears the exchange down, as net/http does
-	stop := context.AfterFunc(req.Context(), func() { rb.Close() })
+	// (a body read that this aborts reports the context's error)
+	stop := context.AfterFunc(req.Context(), func() { rbody.abort(req.Context().Err()) })
 	_ = stop
 	if t.WrapBody != nil {
 		resp.Body = t.WrapBody(req, n, resp, rb)
